@@ -13,7 +13,15 @@ import random
 from .. import core, nets, tla
 
 LEVEL = "model_checking"
-OBJ = [("flops", 0), ("size", 0), ("write", 0), ("max", 0), ("combo", 64), ("limit", 64), ("combo", 3), ("limit", 7)]
+OBJ = [("flops", 0), ("size", 0), ("write", 0), ("max", 0), ("combo", 64), ("limit", 64), ("combo", 3), ("limit", 7),
+       ("combo", 0.5), ("limit", 1.5), ("combo", 2.5), ("limit", 0.25)]
+
+
+def kpair(k):
+    """weight as <<numerator, denominator>> for the judge"""
+    from fractions import Fraction
+    fr = Fraction(str(k))
+    return [fr.numerator, fr.denominator]
 
 
 def simplified(net):
@@ -160,7 +168,7 @@ def run(run):
                     with core.watchdog(120):
                         p0 = optimize_optimal(net.c_inputs(), net.c_output(), net.c_sizes(), minimize=minimize,
                                               cost_cap=2, search_outer=outer, use_ssa=True)
-                    opt = own_cost(net, p0, obj, kk)
+                    opt = int(own_cost(net, p0, obj, kk))
                     caps = [2, 1, 10**9, opt, max(opt - 1, 1)] if (quick and rng.random() < 0.3) or not quick else [2, rng.choice([1, 10**9, opt, max(opt - 1, 1)])]
                 except Exception:
                     pass
@@ -178,7 +186,7 @@ def run(run):
                                       d, tags={"raised"})
                         continue
                     d["ssa"] = [list(map(int, p)) for p in ssa]
-                    cases.append({"net": net.tla(), "obj": obj, "k": kk, "outer": outer,
+                    cases.append({"net": net.tla(), "obj": obj, "k": kpair(kk), "outer": outer,
                                   "ch": [[p, l, r] for p, (l, r) in ch.items()]})
                     descs.append(d)
     # the class interface, one long-lived instance: calls with per-call overrides alternate with plain calls, which must use the
@@ -217,7 +225,7 @@ def run(run):
                 run.violation(f"OptimalOptimizer instance ({how}) raised {core.exc_text(e)} eq={net.eq()}", d, tags={"raised"})
                 continue
             d["ssa"] = [list(map(int, p)) for p in ssa]
-            cases.append({"net": net.tla(), "obj": obj, "k": kobj[obj], "outer": bool(outer), "ch": [[p, l, r] for p, (l, r) in ch.items()]})
+            cases.append({"net": net.tla(), "obj": obj, "k": kpair(kobj[obj]), "outer": bool(outer), "ch": [[p, l, r] for p, (l, r) in ch.items()]})
             descs.append(d)
     # the finder reached by its REGISTERED NAMES: optimize='optimal' / 'dp' / 'dynamic-programming' (outer-product-free) and
     # 'optimal-outer' (all trees), through the path-returning and the tree-returning entry points, and the exported
@@ -251,7 +259,7 @@ def run(run):
                     run.violation(f"{d['entry']} raised {core.exc_text(e)} eq={net.eq()}", d, tags={"raised", "preset"})
                     continue
                 d["ssa"] = [list(map(int, p)) for p in ssa]
-                cases.append({"net": net.tla(), "obj": "flops", "k": 0, "outer": outer, "ch": [[p, l, r] for p, (l, r) in ch.items()]})
+                cases.append({"net": net.tla(), "obj": "flops", "k": [0, 1], "outer": outer, "ch": [[p, l, r] for p, (l, r) in ch.items()]})
                 descs.append(d)
     # big cases (n >= 6) are slow to judge: smaller chunks
     verdicts, results = tla.judge_cases(f"c09_{run.tier}", "OptimalJudge", cases, chunk=40, maxpar=14, timeout=3000)
@@ -284,8 +292,8 @@ def replay(run, d):
                            search_outer=d["outer"], use_ssa=True)
     ch = nets.ssa_to_children([tuple(p) for p in ssa], net.N)
     obj = d["minimize"].split("-")[0]
-    k = int(d["minimize"].split("-")[1]) if "-" in d["minimize"] else (64 if obj in ("combo", "limit") else 0)
-    verdicts, _ = tla.judge_cases("c09_replay", "OptimalJudge", [{"net": net.tla(), "obj": obj, "k": k, "outer": d["outer"],
+    k = float(d["minimize"].split("-")[1]) if "-" in d["minimize"] else (64 if obj in ("combo", "limit") else 0)
+    verdicts, _ = tla.judge_cases("c09_replay", "OptimalJudge", [{"net": net.tla(), "obj": obj, "k": kpair(k), "outer": d["outer"],
                                                                 "ch": [[p, l, r] for p, (l, r) in ch.items()]}])
     run.count()
     if verdicts[0][0] != "ok":
